@@ -1127,9 +1127,24 @@ class _Random:
             return seed
         return Generator()
 
+    # numpy's GLOBAL generator: never seeded by the code under test, every draw is arbitrary
     @staticmethod
     def permutation(x):
         return Generator().permutation(x)
+
+    @staticmethod
+    def choice(a, size=None, replace=True, p=None):
+        if isinstance(a, int):
+            a = SArray(list(range(a)), int64)
+        return Generator().choice(a, size, replace)
+
+    @staticmethod
+    def shuffle(x):
+        return Generator().shuffle(x)
+
+    @staticmethod
+    def seed(s=None):
+        return None
 
 
 random = _Random()
